@@ -46,6 +46,16 @@ func curveWeight(name string) int {
 // witness for every failure class known on the unchanged tree, so that the set
 // of violation signatures does not depend on what the seeded sampling picks.
 func alwaysKeep(c *emuCase) bool {
+	if strings.HasPrefix(c.Class, "coincide:") || c.Class == "n=4,pairs-equal" {
+		// coinciding partial results of the joint / multi scalar multiplications
+		if c.Curve == "BW6-761" {
+			return c.Op == "JointScalarMulBase" && c.Complete
+		}
+		if c.Curve == "BLS12-381" || c.Curve == "STARK" {
+			return c.Op == "JointScalarMulBase" || c.Class == "coincide:n=2,[s1]P1=[s0]P0"
+		}
+		return true
+	}
 	if c.Curve == "BW6-761" {
 		// six times the cost of a 4-limb curve: only the classes of the property
 		// statement; every failure class seen on it is also seen on a cheaper curve
